@@ -240,9 +240,9 @@ def canon_obs(v, depth=0):
     if t is dict:
         return [t.__name__, sorted(([canon_obs(k, depth + 1), canon_obs(x, depth + 1)] for k, x in v.items()),
                                    key=repr)]
-    if isinstance(v, BaseException) and t.__module__ in ('builtins', __name__):
+    if issubclass(t, BaseException) and type.__getattribute__(t, '__module__') in ('builtins', __name__):
         return ['exc', t.__name__, [canon_obs(a, depth + 1) for a in v.args]]
-    return ['opaque', t.__name__]
+    return ['opaque', type.__getattribute__(t, '__name__')]
 
 
 # --------------------------------------------------------------------------------------------
